@@ -108,7 +108,8 @@ def run_block(c, tag, exp, cases, results, tol, shard=200, sizes_term=None):
             continue
         # results outside the comfortable range of a double (atto x (tiny unit)^-3 ...): the implementation's intermediate products lose
         # precision to subnormals / overflow, which is the number format and not the conversion; counted, not compared
-        if "m" in res and len(res["m"]) == 3 and frac(res["m"]) != 0 and not (Fraction(1, 10**200) < abs(frac(res["m"])) < Fraction(10**200)):
+        underflow = ("m" in res and len(res["m"]) == 3 and frac(res["m"]) == 0 and len(cs["a"]["m"]) == 3 and frac(cs["a"]["m"]) != 0)   # a non-zero input came out as 0.0
+        if underflow or "m" in res and len(res["m"]) == 3 and frac(res["m"]) != 0 and not (Fraction(1, 10**200) < abs(frac(res["m"])) < Fraction(10**200)):
             c.cov["outside_float_range"] = c.cov.get("outside_float_range", 0) + 1
             continue
         try:
